@@ -36,13 +36,13 @@ type Violation struct {
 
 // Property is one registered check.
 type Property struct {
-	ID        string
-	Level     string // evidence level
-	Rule      string // how cases are enumerated and what counts as distinct/non-trivial
-	Assume    []string
-	Run       func(s *Shard)        // enumerate this shard's part of the space
-	Check     func(c *Case) []Violation // oracle on one case (used by Run and by replay)
-	Finalize  func(m *Merged)       // optional cross-shard checks on merged data
+	ID       string
+	Level    string // evidence level
+	Rule     string // how cases are enumerated and what counts as distinct/non-trivial
+	Assume   []string
+	Run      func(s *Shard)            // enumerate this shard's part of the space
+	Check    func(c *Case) []Violation // oracle on one case (used by Run and by replay)
+	Finalize func(m *Merged)           // optional cross-shard checks on merged data
 }
 
 var Registry = map[string]*Property{}
